@@ -118,7 +118,7 @@ func VerifC27Genesis() { c27Genesis(verifParam("maxAlloc", 3, 3), 64) }
 
 // VerifC27Many: longer allocation lists with balances below 2^60 (no overflow possible; the solver's work on sums of
 // full-range 64-bit values grows steeply with the list length).
-func VerifC27Many() { c27Genesis(verifParam("maxAllocMany", 4, 5), 60) }
+func VerifC27Many() { c27Genesis(verifParam("maxAllocMany", 4, 4), 60) }
 
 func c27Genesis(maxAlloc int, balBits uint) {
 	ctx := context.Background()
